@@ -273,6 +273,15 @@ func (sa *Safe) analyzeFunc(fr *frame, args []AVal, st0 *State) callResult {
 					binds = append(binds, phiBind{phi, a, inc, iv})
 					phiAtoms[a] = true
 					newPhi[phi] = AVal{Kind: avInt, Lin: linAtom(a), Type: phi.Type()}
+				} else if (inc.Kind == avSlice || inc.Kind == avStr) && inc.Len != nil {
+					// the length of a slice/string phi is an induction variable in its own right
+					a := sa.mAtom(fr, "len(φ"+phi.Name()+":"+phi.Comment+")", Itv{0, posInf})
+					iv := edge.linItv(inc.Len).meet(Itv{0, posInf})
+					binds = append(binds, phiBind{phi, a, AVal{Kind: avInt, Lin: inc.Len}, iv})
+					phiAtoms[a] = true
+					v := inc
+					v.Len = linAtom(a)
+					newPhi[phi] = v
 				} else {
 					newPhi[phi] = inc
 				}
@@ -304,6 +313,36 @@ func (sa *Safe) analyzeFunc(fr *frame, args []AVal, st0 *State) callResult {
 						}
 					}
 				}
+				// pairwise differences of induction variables whose incoming values differ by a constant
+				if len(binds) <= 6 {
+					for i := 0; i < len(binds); i++ {
+						for j := i + 1; j < len(binds); j++ {
+							li, lj := binds[i].inc.Lin, binds[j].inc.Lin
+							if li == nil || lj == nil {
+								continue
+							}
+							mi, mj := false, false
+							for a := range li.T {
+								if phiAtoms[a] {
+									mi = true
+								}
+							}
+							for a := range lj.T {
+								if phiAtoms[a] {
+									mj = true
+								}
+							}
+							if mi || mj {
+								continue // self-referential increments: the shifted facts carry the relation
+							}
+							if c, ok := li.add(lj, -1).isConst(); ok {
+								d := linAtom(binds[i].a).add(linAtom(binds[j].a), -1).addConst(-c)
+								edge.assume(d)
+								edge.assume(d.scale(-1))
+							}
+						}
+					}
+				}
 			}
 			if in[ti] == nil {
 				in[ti] = edge.clone()
@@ -328,6 +367,9 @@ func (sa *Safe) analyzeFunc(fr *frame, args []AVal, st0 *State) callResult {
 							fr.at(p)
 							jv = sa.freshM(fr, j, p.Type(), "φ"+p.Name(), nilMaybe)
 						}
+						if (v.Kind == avSlice || v.Kind == avStr) && v.Len != nil && ov.Len != nil && v.Len.key() == ov.Len.key() {
+							jv.Len = v.Len
+						}
 						phiVals[ti][p] = jv
 					}
 				} else {
@@ -335,7 +377,7 @@ func (sa *Safe) analyzeFunc(fr *frame, args []AVal, st0 *State) callResult {
 				}
 			}
 			visits[ti]++
-			if visits[ti] > 4 {
+			if visits[ti] > 4 && isLoopHead(to) {
 				j = widenState(old, j)
 			}
 			if !equalStates(old, j) {
@@ -760,4 +802,13 @@ func (sa *Safe) needLE(fr *frame, st *State, rule string, a, b *Lin, what string
 	}
 	sa.oblige(rule, fr.fn, what, pos, ok, detail)
 	st.assume(a.add(b, -1))
+}
+
+func isLoopHead(b *ssa.BasicBlock) bool {
+	for _, p := range b.Preds {
+		if b.Dominates(p) {
+			return true
+		}
+	}
+	return false
 }
